@@ -421,11 +421,19 @@ def r12_5(ctx):
         def get(pos):
             return ident.get(pos, ('orig', pos))
         refreshed = None
+        n_clone = 0
         for (k, bid, callee, args, t) in calls:
             if isinstance(callee, str) and callee.endswith('Clone>::clone_from'):
                 tgt = args[0]
+                n_clone += 1
                 if tgt[0] == 'field' and tgt[2] == 'node' and tgt[1][0] == 'index':
                     refreshed = get(key(tgt[1][2]))
+                else:
+                    # `let (lru, _) = cells.split_last_mut().unwrap(); lru.node.clone_from(..)` / `cells.last_mut()`: the last cell
+                    sl = [x for x in walk(tgt) if is_call(x, '::split_last_mut') or is_call(x, '::last_mut')]
+                    if sl and tgt[0] == 'field' and tgt[2] == 'node':
+                        recv = sl[0][2][0]
+                        refreshed = get(key(('bin', 'Sub', ('call', 'core::slice::<impl [T]>::len', (recv,), None), ('const', 1))))
             elif isinstance(callee, str) and callee.endswith('::swap'):
                 a, b = key(args[1]), key(args[2])
                 ia, ib = get(a), get(b)
@@ -475,6 +483,9 @@ def r12_5(ctx):
         handed = get(pos) if pos is not None else None
         if ident.get('_unknown'):
             ctx.undecided(R, 'refreshed-is-returned', 'cells are permuted by a rotation whose extent is not known on the path', fn=f)
+            continue
+        if refreshed is None and n_clone:
+            ctx.undecided(R, 'refreshed-is-returned', 'the cell refreshed with the new node is addressed in a form the rule does not follow', fn=f)
             continue
         ok = refreshed is not None and handed == refreshed
         ctx.check(R, ok, 'refreshed-is-returned', 'the cell overwritten with the new node (%s) is not the cell handed back for its address (%s): the address would be recorded beside another node and a later hit would link to the wrong sub-automaton' % (refreshed, handed), fn=f)
